@@ -142,6 +142,18 @@ def make_classes(rec, spec):
         def doPoll(self):
             rec('doPoll', self.name)
 
+    class ComNP(Com):
+        """a communicator which is not polled itself (its thread serves the modules using it)"""
+        enablePoll = False
+
+    class WithIONP(HasIO, Base):
+        ioClass = ComNP
+
+        def initModule(self):
+            io = self.io
+            rec('see', self.name, io.name, bool(io.earlyInitDone and io.initModuleDone))
+            super().initModule()
+
     class ComUser(Base, Communicator):
         """a communicator which itself uses other modules (a multiplexer switched through another module)"""
 
@@ -175,7 +187,7 @@ def make_classes(rec, spec):
         def scanModules(self):
             yield 'scanned', {'cls': Base, 'description': 'scanned module'}
     Base.flags = {m['name']: m for m in spec['mods']}
-    return {'Base': Base, 'NoPoll': NoPoll, 'Other': Other, 'Strict': Strict, 'Must': Must, 'ComUser': ComUser, 'WithIO': WithIO, 'Pin': Pin}
+    return {'Base': Base, 'NoPoll': NoPoll, 'Other': Other, 'Strict': Strict, 'Must': Must, 'ComUser': ComUser, 'WithIO': WithIO, 'WithIONP': WithIONP, 'Pin': Pin}
 
 
 def run_node(spec):
@@ -204,7 +216,7 @@ def run_node(spec):
             c['w'] = {'value': m['write']}
         if m.get('unexported'):
             c['export'] = {'value': False}
-        if m.get('cls') == 'WithIO':
+        if m.get('cls') in ('WithIO', 'WithIONP'):
             c['uri'] = {'value': m.get('uri', 'tcp://sharedhost:1')}
         if m.get('cls') in ('Other', 'Pin'):
             c = {'cls': c['cls'], 'description': c['description']}
@@ -422,7 +434,7 @@ def check(ctx, spec):
     ctx.ok('writes-before-first-poll')
     # ready only after every poll thread finished its first round (or timed out)
     for m in spec['mods']:
-        if m.get('cls', 'Base') in ('Base', 'Strict', 'Must', 'ComUser', 'WithIO') and not m.get('slow'):
+        if m.get('cls', 'Base') in ('Base', 'Strict', 'Must', 'ComUser', 'WithIO', 'WithIONP') and not m.get('slow'):
             name = m['name']
             first = [n for n, e in enumerate(events) if e[0] == 'read-done' and e[1] == name]
             anyslow = any(x.get('slow') for x in spec['mods'])
@@ -501,7 +513,7 @@ def gen_spec(draw):
     names = [chr(97 + i) for i in range(n)]
     mods = []
     for name in names:
-        cls = draw(st.sampled_from(['Base', 'Base', 'Base', 'NoPoll', 'Strict', 'Must', 'ComUser', 'WithIO', 'Other', 'Pin']))
+        cls = draw(st.sampled_from(['Base', 'Base', 'Base', 'NoPoll', 'Strict', 'Must', 'ComUser', 'WithIO', 'WithIONP', 'Other', 'Pin']))
         if cls == 'Pin' and any(m.get('cls') == 'Pin' for m in mods):
             cls = 'Base'
         m = {'name': name, 'cls': cls}
@@ -515,7 +527,7 @@ def gen_spec(draw):
             m['fail'] = draw(st.sampled_from([None] * 9 + ['early', 'init']))
             m['slow'] = draw(st.integers(0, 14)) == 0 and cls != 'NoPoll'
             m['unexported'] = draw(st.integers(0, 5)) == 0
-            if cls == 'WithIO':
+            if cls in ('WithIO', 'WithIONP'):
                 m['uri'] = draw(st.sampled_from(['tcp://sharedhost:1', 'tcp://sharedhost:1', 'tcp://otherhost:2']))
         mods.append(m)
     order = draw(st.permutations(list(range(n))))
@@ -538,6 +550,10 @@ def fixed_specs():
                 yield {'kind': 'node', 'mods': [dict(m, touch='early') for m in mods if m['name'] != 'dev2'] + [dict(base[2], dep=None)]}
     for touch in ('early', 'start'):
         yield {'kind': 'node', 'mods': [dict(base[0], touch=touch), dict(base[1])]}
+    # modules on a communicator which is not polled itself: with and without configured start values
+    for write in (None, 5):
+        yield {'kind': 'node', 'mods': [{'name': 'dev', 'cls': 'WithIONP', 'uri': 'tcp://sharedhost:1', 'touch': 'init', 'write': write},
+                                        {'name': 'dev2', 'cls': 'WithIONP', 'uri': 'tcp://sharedhost:1', 'touch': 'init'}]}
     # a communicator which is itself the user of a plain module
     for order in ([0, 1, 2], [2, 1, 0], [1, 2, 0]):
         mods = [{'name': 'dev', 'cls': 'Base', 'dep': 'mux', 'touch': 'init'}, {'name': 'mux', 'cls': 'ComUser', 'dep': 'sw', 'touch': 'init'},
@@ -563,7 +579,7 @@ def run_shard(ctx, shard):
 def run_case(ctx, case):
     try:
         ok = case['mods'] and len({m['name'] for m in case['mods']}) == len(case['mods']) and all(m['name'] for m in case['mods']) and \
-            all(m.get('cls', 'Base') in ('Base', 'NoPoll', 'Other', 'Strict', 'Must', 'ComUser', 'WithIO', 'Pin') for m in case['mods'])
+            all(m.get('cls', 'Base') in ('Base', 'NoPoll', 'Other', 'Strict', 'Must', 'ComUser', 'WithIO', 'WithIONP', 'Pin') for m in case['mods'])
     except (KeyError, TypeError):
         ok = False
     if ok:
